@@ -92,6 +92,27 @@ Second round (blocks marked `x2`; run-time additions in ``lean/PkgModel/PyRx.lea
                top-level ``if not isinstance(p, C): return/raise``; a list bound to fresh values in every branch of a
                top-level ``if`` (or returned by a library function all of whose returns are fresh) counts as owned;
                ``and``/``or`` keep their short circuit whenever an operand contains a lifted action
+Fifth round (blocks marked `x5`; run-time additions in ``lean/PkgModel/PySet.lean``):
+  set fields   an instance attribute that ``__init__`` only ever binds to ``frozenset(…)`` / ``set(…)`` (or declares as
+               ``set[str]``) is a set: its truth value, ``len``, ``a | b``, ``a == b``, ``frozenset(a)``, ``sorted(a)`` go to set
+               primitives; *iterating* it (``for``, comprehensions, ``any``/``all``, ``iter``) goes through ``PySet.iter_ord env``:
+               the iteration order is read from the environment table (key ``frozenset.order``), so the function takes
+               ``env`` and its theorem holds for every order; building a set of ``Specifier``s evaluates the translated
+               ``__hash__`` of every element and deduplicates with the translated ``__eq__`` (``X5_HASHED_MEMBERS``)
+  objects      ``obj.x = e`` on a local bound once to ``C(…)`` and otherwise only read as ``obj.attr`` / returned; ``self.x = e``
+               in a property setter (``<Class>.<prop>.fset`` in ``SELECTED``; like ``__init__`` it hands back the updated
+               object); ``self.x: T = e`` in ``__init__``; ``self.f = K.__new__(K)`` directly followed by ``self.f.a = e``;
+               ``self.__class__(…)`` and ``isinstance(x, self.__class__)`` for a class without tracked subclasses;
+               instance fields declared ``self.x: K`` / ``K | None`` in ``__init__`` have class K (``a == b`` on an optional
+               field tests ``None`` first); the truth value of an instance of a class with ``__len__`` (and no
+               ``__bool__``) is ``len(x) != 0`` through the translated ``__len__``
+  classes      the class of a reassigned name is followed through the control flow (``x5_class_at``): constructor calls,
+               ``if not isinstance(x, C): x = C(…)``, ``if isinstance(x, (A, B)): x = C(…) elif not isinstance(x, C): return``;
+               for a *parameter* that is reassigned this replaces the "assigned once" rule (its first value is the
+               caller's); ``str(x)`` under ``if isinstance(x, (str, K))`` dispatches on the run-time class
+  other        ``sorted(xs)`` of strings, ``iter(xs)``, ``bool(x)``, ``"…{}…".format(*xs)``, ``map(<tracked class>, xs)``,
+               ``Specifier(…)`` as the primitive ``PySet.mkSpecifier`` (scanner ``S.parseSpec``; only while the source of
+               ``Specifier.__init__`` has the digest in ``PRIMITIVE_INIT_GUARDS``), ``s.strip()`` in ``specifiers.py``
 Checks made by the translator (a failure makes the function unsupported):
   * a local changed inside a ``try`` body (other than by its last simple statement) must not be read in a handler or after
     a handler that falls through: Lean's ``try … catch`` restores the locals of the ``try`` start;
